@@ -21,10 +21,32 @@ def rd(name):
 
 HAVOC_GHOST = '''  gh_it_others = nondet_long(); gh_it_w = nondet_bool();
   gh_sent = nondet_int(); gh_cont_registered = nondet_int(); gh_cont_id = nondet_qstr();
-  g_wid = nondet_qstr(); gh_completions = nondet_int(); gh_started = nondet_bool(); gh_others_completed = nondet_int();
+  g_wid = nondet_qstr(); g_wgen = nondet_int(); gh_gen_ctr = nondet_int(); gh_reentrant = nondet_bool(); gh_completions = nondet_int(); gh_others_completed = nondet_int();
   gh_value.kind = nondet_int(); gh_value.el = nondet_int(); gh_value.err.description = nondet_qstr(); gh_value.err.error.kind = nondet_int(); gh_value.err.error.val = nondet_int();
-  gh_other.first = nondet_qstr(); gh_other.second.jid = nondet_qstr(); gh_other.second.interface.gh_is_w = nondet_bool(); gh_other.second.interface.finished = nondet_bool();
+  gh_other.first = nondet_qstr(); gh_other.second.jid = nondet_qstr(); gh_other.second.interface.gh_is_w = nondet_bool(); gh_other.second.interface.gh_gen = nondet_int(); gh_other.second.interface.finished = nondet_bool();
 '''
+
+
+REENTRANT_POSTS = ('post.request_started_by_a_continuation_during_cancellation_stays_pending_in_the_table',
+                   'post.new_session_keeps_a_request_started_by_a_continuation_pending', 'post.final_close_keeps_a_request_started_by_a_continuation_pending')
+
+
+def find_input(unit, p, o, lab, work):
+    """a failed "request started by a continuation stays pending" obligation has one concrete scenario: the continuation of a
+    cancelled request starts a new one; it is replayed on the real library built from the working tree"""
+    if lab not in REENTRANT_POSTS:
+        return None
+    from vlib import native
+    rc, out = native.run_driver(os.path.join(HERE, 'replay_reentrant_cancel.cpp'))
+    return {'inputs': {'scenario': 'request "first" pending; its continuation calls start("retry", "example.org"); onSessionOpened(smResumed=false)',
+                       'driver': 'units/C07/replay_reentrant_cancel.cpp'},
+            'reproduced': rc == 0, 'native_output': out[-1500:]}
+
+
+def native_replay(rp):
+    from vlib import native
+    rc, out = native.run_driver(os.path.join(HERE, 'replay_reentrant_cancel.cpp'))
+    return rc == 0, out
 
 
 def lower_lambda(b, prof, method, sig, ordinal, cname, spec):
@@ -103,11 +125,6 @@ def build(work, tier):
     lower('sendIq', M + 'sendIq_packet', 'sendIq_packet.spec', sig='QXmppPacket')
     lower('sendIq', M + 'sendIq_iq', 'sendIq_iq.spec', sig='QXmppIq')
 
-    # the same real body once more, under the contract "exactly-once survives continuations that start new requests" (finding C07-F1)
-    sp_re = b.spec('cancelAll_reentrant.spec')
-    txt_re = b.lower(Target(SRC, CLS + '::cancelAll', 'cancelAll', M + 'cancelAll', this=CLS, parent=None, lowerer_cls=L07), sp_re)
-    b.functions.pop()   # already listed
-
     CL = 'QXmppOutgoingClient'
     for nm, mth, specf in ((CL + '_sendIq', 'sendIq', 'client_sendIq.spec'), (CL + '_dtor', '~' + CL, 'client_dtor.spec')):
         sp = b.spec(specf)
@@ -133,7 +150,10 @@ def build(work, tier):
 
     def proof(cname, harness_args, decls, replace=(), kind='complete', pre='', **kw):
         sp, txt = lowered[cname]
-        protos = ''.join(b.prototype(lowered[r][1]) for r in replace if r in lowered and (r != M + 'sendIq_onSent' or not pre)) + pre
+        # a callee the current body no longer calls cannot be replaced (goto-instrument would stop): the proof then runs without it
+        body = txt[txt.index('\n{'):] + pre
+        replace = [r for r in replace if re.search(r'\b%s\(' % re.escape(r), body)]
+        protos = ''.join(b.prototype(lowered[r][1]) for r in replace if r in lowered and b.prototype(lowered[r][1]) not in pre) + pre
         c = head + protos + txt + '\nvoid h_%s(void) {\n%s  %s\n  %s(%s);\n}\n' % (cname, HAVOC_GHOST, decls, cname, harness_args)
         f = b.write(cname + '.c', c)
         p = Proof(cname, f, 'h_' + cname, enforce=cname, replace=list(replace), kind=kind, include_dirs=[QT], timeout=600, object_bits=8,
@@ -149,10 +169,13 @@ def build(work, tier):
     proof(M + 'isIdValid', 'self, id', 'const OutgoingIqManager *self; qstr id;', replace=[M + 'hasId'], note='loop-free; hasId by contract')
     proof(M + 'start', 'self, _ret, id, to', 'OutgoingIqManager *self; qtask *_ret; qstr id; qstr to;', replace=[M + 'isIdValid'], note='loop-free; isIdValid by contract')
     proof(M + 'finish', 'self, id, result', 'OutgoingIqManager *self; qstr id; IqResult *result;', note='loop-free')
-    proof(M + 'cancelAll', 'self', 'OutgoingIqManager *self;', kind='contract', expect_loops=1,
-          note='table of any size: the loop over all pending requests is closed by a loop contract (witness visited at an arbitrary position)')
-    proof(M + 'onSessionOpened', 'self, session', 'OutgoingIqManager *self; const SessionBegin *session;', replace=[M + 'cancelAll'], note='loop-free; cancelAll by contract')
-    proof(M + 'onSessionClosed', 'self, session', 'OutgoingIqManager *self; const SessionEnd *session;', replace=[M + 'cancelAll'], note='loop-free; cancelAll by contract')
+    reenter = b.prototype(lowered[M + 'start'][1]) + rd('model_reenter.h')
+    proof(M + 'cancelAll', 'self', 'OutgoingIqManager *self; gh_iqm_reenter = self;', kind='contract', expect_loops=1, replace=[M + 'start'], pre=reenter,
+          defines=['REENTRANT_CONTINUATIONS'],
+          note='table of any size: the loop over all pending requests is closed by a loop contract (witness visited at an arbitrary position); '
+               'continuations run by finish() may start new requests (OutgoingIqManager::start by its verified contract)')
+    proof(M + 'onSessionOpened', 'self, session', 'OutgoingIqManager *self; const SessionBegin *session; gh_iqm_reenter = self;', replace=[M + 'cancelAll'], note='loop-free; cancelAll by contract')
+    proof(M + 'onSessionClosed', 'self, session', 'OutgoingIqManager *self; const SessionEnd *session; gh_iqm_reenter = self;', replace=[M + 'cancelAll'], note='loop-free; cancelAll by contract')
     proof(M + 'sendIq_onSent', 'self, result, id', 'OutgoingIqManager *self; SendResult *result; qstr id;', replace=[M + 'finish'],
           note='continuation attached to the send task in sendIq(QXmppPacket&&, id, to); finish by contract')
     proof(M + 'sendIq_packet', 'self, _ret, packet, id, to', 'OutgoingIqManager *self; qtask *_ret; QXmppPacket *packet; qstr id; qstr to;',
@@ -162,21 +185,8 @@ def build(work, tier):
           note='loop-free; hasId and sendIq(QXmppPacket&&, id, to) by contract')
     proof(CL + '_sendIq', 'self, _ret, iq', 'QXmppOutgoingClient *self; qtask *_ret; QXmppIq *iq; gh_cfg_jidBare = nondet_qstr();', replace=[M + 'sendIq_iq'],
           note='loop-free; OutgoingIqManager::sendIq(QXmppIq&&, to) by contract; own bare JID is an arbitrary (possibly empty) string')
-    proof(CL + '_dtor', 'self', 'QXmppOutgoingClient *self;', replace=[M + 'cancelAll', 'StreamAckManager_resetCache'], pre=rd('model_reset.h'),
+    proof(CL + '_dtor', 'self', 'QXmppOutgoingClient *self; gh_iqm = nondet_iqm(); gh_iqm_reenter = gh_iqm;', replace=[M + 'cancelAll', 'StreamAckManager_resetCache'], pre=rd('model_reset.h'),
           note='loop-free; cancelAll by (verified) contract, StreamAckManager::resetCache by an assumed contract')
-    # ---------------------------------------------------------------- finding C07-F1: re-entrant continuations during cancelAll
-    for variant, define in (('excluded', 'FINDING_EXCLUDED'), ('only', 'FINDING_ONLY')):
-        c = head + b.prototype(lowered[M + 'start'][1]) + rd('model_reenter.h') + txt_re + '\nvoid h_cancelAll_reentrant(void) {\n%s  OutgoingIqManager *self; gh_reentrant = nondet_bool(); gh_iqm_reenter = self;\n  %scancelAll(self);\n}\n' % (HAVOC_GHOST, M)
-        f = b.write('cancelAll_reentrant_%s.c' % variant, c)
-        p = Proof('cancelAll_reentrant_' + variant, f, 'h_cancelAll_reentrant', enforce=M + 'cancelAll', replace=[M + 'start'], kind='contract', expect_loops=1,
-                  include_dirs=[QT], timeout=600, object_bits=8, defines=['REENTRANT_CONTINUATIONS', define],
-                  note='cancelAll under the exactly-once invariant with continuations modelled as callbacks that may start a request; '
-                       + ('continuations that do so excluded by precondition' if variant == 'excluded' else 'restricted to continuations that do so (finding C07-F1)'))
-        p.labels = {'post': {M + 'cancelAll': sp_re.labels}, 'inv': {M + 'cancelAll': sp_re.inv_labels.get(0, [])}}
-        p.expect_post = len(sp_re.labels)
-        if variant == 'only':
-            p.finding = 'C07-F1'
-        proofs.append(p)
     # ---------------------------------------------------------------- lemma: exactly-once invariant, from the contracts alone
     ops = [M + m for m in ('start', 'finish', 'handleStanza', 'cancelAll', 'onSessionOpened', 'onSessionClosed', 'hasId', 'isIdValid', 'sendIq_onSent', 'sendIq_packet', 'sendIq_iq')]
     lem = b.subst(rd('lemma.h'))
@@ -205,14 +215,16 @@ def build(work, tier):
                     'A-SEND StreamAckManager::send hands exactly that packet to the stream and returns a task that is finished already or later (C09); A-THEN QXmppTask::then runs the continuation at once iff the task is already finished (C13) (units/C07/model_send.h)',
                     'A-RESETCACHE StreamAckManager::resetCache only runs send continuations (assumed contract in units/C07/model_reset.h; used by the destructor proof only)',
                     'QXmppConfiguration::jidBare() is a pure getter of the configured own bare JID; QXmppUtils::generateStanzaUuid() returns some non-empty string',
-                    'continuations attached to request tasks do not call back into the table while cancelAll() runs -- assumed by the lemma and by the contracts of cancelAll / onSessionOpened / onSessionClosed / ~QXmppOutgoingClient; the complementary case is finding C07-F1 (proofs cancelAll_reentrant_*)',
+                    'continuations run by QXmppPromise::finish are modelled as callbacks that may start one new request (OutgoingIqManager::start, by its verified contract) in cancelAll and, through its contract, in onSessionOpened / onSessionClosed / ~QXmppOutgoingClient / the lemma; in handleStanza, finish and the send continuation they are not modelled (see not_covered)',
+                    'A-UMAP-MOVE move construction of the table transfers all elements and leaves the source empty (units/C07/model.h)',
                     'logging (warning()) dropped by the lowering after a purity check of its arguments'],
         'assumes': scan_assumes(rd('model.h') + rd('model_send.h') + rd('model_reenter.h') + rd('lemma.h') + open(os.path.join(QT, 'opaque.h')).read()),
         'not_covered': ['the typed continuation chain chainIq/chain in src/base/QXmppFutureUtils_p.h (deep templates) and the QXmppClient::sendIq / sendSensitiveIq / sendGenericIq wrappers',
                         'per-manager pending maps of multi-stanza requests (MAM, PubSub, Discovery), including the MAM + encryption non-completion named in the property',
                         'the send-error path inside StreamAckManager (C09); only its effect through the continuation attached in sendIq is verified',
-                        'iterator invalidation by rehash when a continuation inserts a request during handleStanza / finish (m_requests.erase(itr) after promise.finish); no observable failure on libstdc++, not modelled',
+                        'continuations that call back into the table during handleStanza / finish / the send continuation (m_requests.erase(itr) after promise.finish: iterator invalidation by rehash has no observable failure on libstdc++; a re-entrant start with the same id is rejected while the entry is still there), not modelled',
+                        'a request started by a continuation while ~QXmppOutgoingClient runs stays in the table and is destroyed with it (the destructor contract says only such a request can be left)',
                         'liveness of the network: a request with no qualifying reply and no session end stays pending (by design of the property)',
                         'Qt 6 branches, BUILD_OMEMO / E2EE decryption of IQ responses'],
-        'explanation': 'Witness-key view: every contract is stated for one arbitrary request id g_wid chosen by the harness and never assigned; since it is arbitrary the facts hold for all ids, and "requests with other ids are untouched" is the same fact read from the other side.',
+        'explanation': 'Witness view: every contract is stated for one arbitrary request -- the g_wgen-th request registered under the arbitrary id g_wid, both chosen by the harness and never assigned; since they are arbitrary the facts hold for every request of every id, and "requests with other ids are untouched" is the same fact read from the other side. Generations make id reuse explicit (a request cancelled in the detached table and a new one with the same id in the live table are different requests).',
     }
